@@ -45,6 +45,10 @@ def configs(tier):
                         if not q and n == 8 and a in ('2^-1', '2') and centre == 'trough':
                             continue
                         out.append({'mode': 'amp_full', 'rows': rows, 'n': n, 'method': method, 'centre': centre, 'a': a})
+    # integer-typed recordings (raw ADC counts), scaled by the integer 2
+    for method in ('cycles', 'amp'):
+        for centre in ('peak', 'trough'):
+            out.append({'mode': 'amp_full', 'rows': 2, 'n': 6, 'method': method, 'centre': centre, 'a': '2', 'dtype': 'int'})
     for L, ns in ((0, [8] if q else [8, 9]), (1, [6] if q else [6, 7])):
         for n in ns:
             for method in ('cycles', 'amp'):
@@ -98,8 +102,9 @@ def compare_tables(ctx, t1, t2, a, what):
 def run(ctx, cfg):
     np, pd = ctx.np, ctx.pd
     mode, n = cfg['mode'], cfg['n']
-    x = [ctx.real('x%d' % i) for i in range(n)]
-    sig = np.array(list(x), dtype=float)
+    is_int = cfg.get('dtype') == 'int'
+    x = [(ctx.integer if is_int else ctx.real)('x%d' % i) for i in range(n)]
+    sig = np.array(list(x), dtype=int if is_int else float)
     if mode == 'amp_cp':
         a = ctx.real('a')
         ctx.assume(a > 0)
@@ -108,6 +113,7 @@ def run(ctx, cfg):
         cp = ctx.mod('bycycle.features.cyclepoints')
         boundary = ctx.integer('boundary')
         ctx.assume(boundary >= 0)
+        ctx.assume(boundary <= n + 1)
         try:
             t1 = cp.compute_cyclepoints(sig, 500.0, (8.0, 12.0), boundary=boundary, pad=L > 0)
         except Exception:
@@ -140,7 +146,7 @@ def run(ctx, cfg):
         try:
             t1 = ff.compute_features(sig, 500.0, (8.0, 12.0), center_extrema=centre, burst_method=method,
                                      threshold_kwargs=dict(thr))
-            t2 = ff.compute_features(np.array([af * v for v in x], dtype=float), 500.0, (8.0, 12.0),
+            t2 = ff.compute_features(np.array([af * v for v in x], dtype=int if is_int else float), 500.0, (8.0, 12.0),
                                      center_extrema=centre, burst_method=method, threshold_kwargs=dict(thr))
         except Exception as e:
             ctx.fail(exc_label(e))
